@@ -120,7 +120,13 @@ func ResultType(elemType, src types.Type, indices []Index) types.Type {
 			if !index.HasVal {
 				panic(fmt.Errorf("unable to index into struct type `%v` using gep with non-constant index", e))
 			}
-			e = elm.Fields[index.Val]
+			// A struct index is an i32; like LLVM, read a literal that is too
+			// wide for it modulo 2^32.
+			field := uint64(uint32(index.Val))
+			if field >= uint64(len(elm.Fields)) {
+				panic(fmt.Errorf("struct index %d is out of range for gep into `%v` (%d fields)", index.Val, e, len(elm.Fields)))
+			}
+			e = elm.Fields[field]
 		default:
 			panic(fmt.Errorf("cannot index into type %T using gep", e))
 		}
